@@ -46,6 +46,12 @@ def c10():
     put("C10", "memory-empty-vector", "index",
         dict(base, fmt="positions", vfmt="positions", bl=4, inl=1, history="single", ncommits=1, codec="memory"),
         "MemoryCodec: empty vector stored, has_vector True")
+    put("C10", "vector-as-vector-format", "index",
+        dict(base, fmt="positions", vfmt="frequency", bl=4, inl=1, history="single", ncommits=1),
+        "IndexReader.vector_as decoded the vector with the posting format (positions) instead of frequency")
+    put("C10", "plain-all-terms", "index",
+        dict(base, fmt="positions", vfmt="positions", bl=4, inl=1, history="single", ncommits=1, codec="plain"),
+        "PlainTextCodec terms reader: all_terms() raised TypeError (_find_root() without argument)")
 
 
 def c08():
@@ -70,6 +76,13 @@ def c08():
         {"docs": docs, "ncommits": 2, "storage": "ram", "final": "none", "deletes": [], "nd_default": 5,
          "compound": True},
         "MultiReader.column_reader misaligned rows; NUMERIC(float) default; signed default")
+    put("C08", "segs-merge-without-column", "segs",
+        {"kind": "var", "segs": [[u"a", None, u"b"], [None, None], [u"c"]], "deletes": [1, 3], "storage": "ram"},
+        "three segments, the middle one without the column file: MultiColumnReader rows, then delete + optimize "
+        "(write_per_doc column copy)")
+    put("C08", "segs-merge-numeric", "segs",
+        {"kind": "num", "segs": [[None, 7], [-3, None, 32767]], "deletes": [0], "storage": "file"},
+        "numeric column with a non-zero default through a merge")
 
 
 if __name__ == "__main__":
